@@ -25,7 +25,7 @@ COMPONENTS = {
 }
 ASSUMPTIONS = ['an interrupted write_bytes leaves the entry missing, empty or a proper prefix (process-kill model)',
                'both branches see the same urandom stream and clock for the command, so any difference is the cache\'s']
-PROBES = ['pair', 'pair_cold_cache', 'cache_hit_possible', 'torn_prefix', 'torn_empty', 'torn_removed', 'shared_cache', 'second_repository', 'stale_entries', 'delete', 'clean']
+PROBES = ['pair', 'pair_cold_cache', 'cache_hit_possible', 'torn_prefix', 'torn_empty', 'torn_removed', 'shared_cache', 'second_repository', 'second_repository_other_kind', 'stale_entries', 'delete', 'clean']
 TIERS = {'quick': {'budget_s': 60, 'batch': 4}, 'thorough': {'budget_s': 900, 'batch': 8}}
 
 
@@ -245,7 +245,14 @@ def _run_case(case):
             W2 = harness.World(case['sched_seed'] ^ 0x2222, 'c18b', flavour=case['flavour'], lat_kind='zero', scratch=False)
             c2 = world.Client('other', password=b'other repo pw' if H.enc else None, concurrent=1, cache_dir=cache_dirs[0])
             W2.dir = W.dir
-            r = W2.init(c2, case['settings'], world.SchedOpts.sequential())
+            settings2 = case['settings']
+            if substream(case['sched_seed'], 'second-repo').random() < 0.5:
+                # ... of the other kind: unencrypted next to an encrypted one, or the reverse
+                settings2 = dict(case['settings'])
+                settings2['encryption'] = None if H.enc else {'kdf': {'name': 'scrypt', 'n': 2, 'r': 1}}
+                c2.password = None if H.enc else b'other repo pw'
+                H.probe('second_repository_other_kind')
+            r = W2.init(c2, settings2, world.SchedOpts.sequential())
             src2 = W.dir / 'src-other'
             src2.mkdir()
             (src2 / 'o.bin').write_bytes(b'other repository data' * 3)
